@@ -46,14 +46,17 @@ def readFlows (rec : List Nat) : Nat → Rd → List (List Nat) → (List (List 
     | none => (acc, false)
     | some (f, r') => readFlows rec n r' (acc ++ [f])
 
-/-- a decoded message: header values, flows, and the (non-fatal, by `type nonfatalError error`) error slot -/
+/-- a decoded message: header values and flows.  (Until the F29 repair the model carried a third component, the
+error `Decode` returned TOGETHER with the message: `type nonfatalError error` made the type switch in `Decode`
+match every error.  `nonfatalError` is now a struct type that nothing constructs: every error is fatal.) -/
 structure Msg where
   hdr : List Nat
   flows : List (List Nat)
-  err : Option V5Err
 deriving Repr, DecidableEq
 
-/-- `Decoder.Decode`, generic in the two layouts -/
+/-- `Decoder.Decode`, generic in the two layouts: `error e` = `(nil, err)`, `ok m` = `(msg, nil)` — a message and
+an error are never returned together (F29 repair: a packet that carries fewer octets than its header announces
+is rejected as a whole) -/
 def decodeWith (hl rl : List (String × Nat)) (bs : Bytes) : Except V5Err Msg :=
   match readFields (widths hl) ⟨bs, 0⟩ with
   | none => .error .short
@@ -62,10 +65,10 @@ def decodeWith (hl rl : List (String × Nat)) (bs : Bytes) : Except V5Err Msg :=
     let cnt := fieldAt h 1    -- Count
     if ver ≠ 5 then .error .badVersion else
     if cnt < 1 ∨ cnt > 30 then .error .badCount else
-    if cnt * 48 > r.rem.length then .ok ⟨h, [], some .shortFlows⟩ else
+    if cnt * 48 > r.rem.length then .error .shortFlows else
     match readFlows (widths rl) cnt r [] with
-    | (fs, true) => .ok ⟨h, fs, none⟩
-    | (fs, false) => .ok ⟨h, fs, some .short⟩
+    | (fs, true) => .ok ⟨h, fs⟩
+    | (_, false) => .error .short
 
 /-- the decoder of the current source -/
 def decode (bs : Bytes) : Except V5Err Msg :=
